@@ -9,9 +9,9 @@ from pbt.sut import Message, MT, Sequence, RelativeSequence, Key
 
 ID = "C07"
 MIN_NONTRIVIAL = 0.5
-RULE = ("Hypothesis: arbitrary relative message lists (<= 24 messages) over 2 channels x pitches {0,1,60,61} (pitches equal to "
+RULE = ("Hypothesis: arbitrary relative message lists (<= 24 messages) over 2 channels x pitches {0,1,60,61} or pools with keyboard-size differences such as {0,1,109,110} (pitches equal to "
         "channel numbers included) with waits, note-ons, note-offs, repeated/alternating time and key signatures and trailing "
-        "rests; half of the cases are repaired into 'already paired' lists (open counter never negative, zero at the end) "
+        "rests; in a third of the cases equal messages are one shared object (what concatenate([m, m]) produces); half of the cases are repaired into 'already paired' lists (open counter never negative, zero at the end) "
         "keeping nesting, overlap and re-triggers. Oracle: independent automaton over the output's relative messages in list "
         "order (strict on/off alternation per channel+pitch, closed at the end), no signature repeating the one in force, sum "
         "of waits unchanged; for paired input sounding-set equality (open-counter walk) and idempotence. Non-trivial: input "
@@ -26,13 +26,14 @@ PITCHES = [0, 1, 60, 61]
 
 @st.composite
 def _case(draw, size=1):
+    pitches = draw(st.sampled_from([PITCHES, PITCHES, PITCHES, [0, 1, 109, 110], [5, 92, 93, 114], [0, 15, 127, 108]]))
     n = draw(st.integers(0, 24 * size))
     msg = st.one_of(
         st.tuples(st.just("w"), st.integers(1, 12)),
-        st.tuples(st.just("on"), st.integers(0, 1), st.sampled_from(PITCHES), st.integers(1, 127)),
-        st.tuples(st.just("off"), st.integers(0, 1), st.sampled_from(PITCHES)),
-        st.tuples(st.just("on"), st.integers(0, 1), st.sampled_from(PITCHES), st.integers(1, 127)),
-        st.tuples(st.just("off"), st.integers(0, 1), st.sampled_from(PITCHES)),
+        st.tuples(st.just("on"), st.integers(0, 1), st.sampled_from(pitches), st.integers(1, 127)),
+        st.tuples(st.just("off"), st.integers(0, 1), st.sampled_from(pitches)),
+        st.tuples(st.just("on"), st.integers(0, 1), st.sampled_from(pitches), st.integers(1, 127)),
+        st.tuples(st.just("off"), st.integers(0, 1), st.sampled_from(pitches)),
         st.tuples(st.just("ts"), st.sampled_from([3, 4]), st.sampled_from([4, 8]), st.integers(0, 1)),
         st.tuples(st.just("ks"), st.sampled_from(["C", "G", "Db"]), st.integers(0, 1)),
     )
@@ -57,7 +58,7 @@ def _case(draw, size=1):
         if draw(st.booleans()):
             rep.append(["w", draw(st.integers(1, 9))])
         msgs = rep
-    return {"msgs": msgs}
+    return {"msgs": msgs, "share": draw(st.sampled_from([False, False, True]))}
 
 
 def strategy(params, shard, nshards):
@@ -65,9 +66,15 @@ def strategy(params, shard, nshards):
     return _case(size=params.get("size", 1) if shard % 2 else 1)
 
 
-def _build(msgs):
+def _build(msgs, share=False):
     out = []
+    memo = {}
     for m in msgs:
+        if share and tuple(m) in memo:
+            # the same Message object occurs again (what concatenate([motif, motif]) produces)
+            out.append(memo[tuple(m)])
+            continue
+        n_before = len(out)
         if m[0] == "w":
             out.append(Message(message_type=MT.WAIT, time=m[1]))
         elif m[0] == "on":
@@ -78,6 +85,8 @@ def _build(msgs):
             out.append(Message(message_type=MT.TIME_SIGNATURE, channel=m[3], numerator=m[1], denominator=m[2]))
         elif m[0] == "ks":
             out.append(Message(message_type=MT.KEY_SIGNATURE, channel=m[2], key=Key(m[1])))
+        if share and len(out) > n_before:
+            memo[tuple(m)] = out[-1]
     return out
 
 
@@ -138,7 +147,9 @@ def check(case):
     paired, classes = _classify(msgs)
     out.nontrivial = bool(classes)
     out.label("paired" if paired else "ill-formed", *sorted(classes))
-    seq = Sequence(relative_sequence=RelativeSequence(_build(msgs)))
+    seq = Sequence(relative_sequence=RelativeSequence(_build(msgs, case.get("share", False))))
+    if case.get("share"):
+        out.label("shared-message-objects")
     ev_in, dur_in = O.rel_events(seq._rel)
     try:
         seq.normalise()
